@@ -14,6 +14,9 @@
 //!          fill=<table>:<n>:<pad>             n more initial rows (1000+i, i, 'x'*pad), i = 1..n, table shape (k:big,v:int,p:text);
 //!                                             inserted by autocommit statements of 20 rows each (builds multi-level trees)
 //!          cache=<pages> pool=<workers> pace=<seed>
+//!          yield=<tag>:<permille>:<max_us>    at the yield point <tag> inside the database (axmosdb::verif::sched::TAGS) the calling
+//!                                             thread is delayed by 1..max_us microseconds on <permille> of 1000 hits; which hits and for
+//!                                             how long is a function of the pace seed, the tag and the hit number
 //!   op     begin | commit | rollback          the thread's session (one transaction at a time)
 //!          <stmt>                             statement in the thread's open session
 //!          db <stmt>                          Database::execute (autocommit) from that thread
@@ -73,6 +76,8 @@ struct Setup {
     cache: usize,
     pool: usize,
     pace: u64,
+    /// (tag, permille, max_us)
+    yields: Vec<(&'static str, u64, u64)>,
 }
 
 struct ParsedCase {
@@ -85,7 +90,7 @@ fn parse_case(line: &str) -> Option<ParsedCase> {
     let body = line.trim().strip_prefix("threads ")?;
     let (setup_s, ops_s) = body.split_once('|')?;
     let mut hist_words: Vec<&str> = Vec::new();
-    let mut st = Setup { tables: vec![], rows: vec![], fills: vec![], cache: 10000, pool: 4, pace: 0 };
+    let mut st = Setup { tables: vec![], rows: vec![], fills: vec![], cache: 10000, pool: 4, pace: 0, yields: vec![] };
     for w in setup_s.split_whitespace() {
         if let Some(v) = w.strip_prefix("cache=") {
             st.cache = canon_num(v)? as usize;
@@ -96,6 +101,18 @@ fn parse_case(line: &str) -> Option<ParsedCase> {
             }
         } else if let Some(v) = w.strip_prefix("pace=") {
             st.pace = canon_num(v)?;
+        } else if let Some(v) = w.strip_prefix("yield=") {
+            let parts: Vec<&str> = v.split(':').collect();
+            if parts.len() != 3 {
+                return None;
+            }
+            let tag = *axmosdb::verif::sched::TAGS.iter().find(|t| **t == parts[0])?;
+            let permille = canon_num(parts[1])?;
+            let max_us = canon_num(parts[2])?;
+            if permille > 1000 || max_us == 0 || max_us > 50_000 {
+                return None;
+            }
+            st.yields.push((tag, permille, max_us));
         } else if let Some(v) = w.strip_prefix("fill=") {
             let parts: Vec<&str> = v.split(':').collect();
             if parts.len() != 3 {
@@ -291,6 +308,54 @@ fn install_hook() {
         }
         prev(info);
     }));
+}
+
+// ------------------------------------------------------------------------------------------------ yield points
+
+/// Seeded perturbation at the yield points of the database (feature `verif`).  The *decisions* are a function of
+/// (seed, tag, hit number); the interleaving that results still belongs to the OS scheduler.
+struct YieldPlan {
+    seed: u64,
+    sites: Vec<(&'static str, u64, u64, AtomicU64, AtomicU64)>, // tag, permille, max_us, hits, delays
+}
+
+fn mix(mut z: u64) -> u64 {
+    z = z.wrapping_add(0x9E3779B97F4A7C15);
+    z = (z ^ (z >> 30)).wrapping_mul(0xBF58476D1CE4E5B9);
+    z = (z ^ (z >> 27)).wrapping_mul(0x94D049BB133111EB);
+    z ^ (z >> 31)
+}
+
+impl YieldPlan {
+    fn at(&self, tag: &'static str) {
+        for (i, (t, permille, max_us, hits, delays)) in self.sites.iter().enumerate() {
+            if *t != tag {
+                continue;
+            }
+            let n = hits.fetch_add(1, Ordering::Relaxed);
+            let h = mix(self.seed ^ mix(i as u64 + 1) ^ n);
+            if h % 1000 < *permille {
+                delays.fetch_add(1, Ordering::Relaxed);
+                let us = 1 + (h >> 20) % *max_us;
+                if us < 60 {
+                    let t0 = Instant::now();
+                    while (t0.elapsed().as_micros() as u64) < us {
+                        std::hint::spin_loop();
+                    }
+                } else {
+                    std::thread::sleep(Duration::from_micros(us));
+                }
+            }
+        }
+    }
+    fn summary(&self) -> String {
+        let parts: Vec<String> = self
+            .sites
+            .iter()
+            .map(|(t, _, _, hits, delays)| format!("{}:{}/{}", t, delays.load(Ordering::Relaxed), hits.load(Ordering::Relaxed)))
+            .collect();
+        format!("yields={}", parts.join(","))
+    }
 }
 
 // ------------------------------------------------------------------------------------------------ scratch directories
@@ -500,6 +565,20 @@ fn run_in(dir: &std::path::Path, pc: ParsedCase) -> String {
     }
     let tables: Vec<String> = setup.tables.iter().map(|t| t.name.clone()).collect();
 
+    // yield points are perturbed only while the client threads run (not during the setup)
+    let plan: Option<Arc<YieldPlan>> = if setup.yields.is_empty() {
+        None
+    } else {
+        Some(Arc::new(YieldPlan {
+            seed: setup.pace,
+            sites: setup.yields.iter().map(|(t, p, m)| (*t, *p, *m, AtomicU64::new(0), AtomicU64::new(0))).collect(),
+        }))
+    };
+    if let Some(p) = &plan {
+        let p2 = p.clone();
+        axmosdb::verif::sched::install(Some(Arc::new(move |tag| p2.at(tag))));
+    }
+
     // per-thread programs
     let mut tids: Vec<usize> = pc.ops.iter().map(|(t, _)| *t).collect();
     tids.sort();
@@ -551,8 +630,12 @@ fn run_in(dir: &std::path::Path, pc: ParsedCase) -> String {
             let _ = h.join();
         }
     }
+    axmosdb::verif::sched::install(None);
     let mut calls: Vec<(u64, String)> = Vec::new();
     let mut diag: Vec<String> = Vec::new();
+    if let Some(p) = &plan {
+        diag.push(p.summary());
+    }
     let mut interr = false;
     for (tid, sh) in &shared {
         for r in sh.recs.lock().unwrap().iter() {
@@ -739,7 +822,20 @@ enum Shape {
     /// scans next to splits: one writer appends 100–160 rows (multi-row inserts) to a table preloaded to several pages, so
     /// that its right-most leaves split and are redistributed, while 3 readers keep scanning that table
     ScanVsSplit,
-    /// several writers insert into / delete from the SAME table (region `same_table_writers`)
+    /// statement level: 3–6 threads, each issuing autocommit SELECT / INSERT / DELETE statements on a table of its own, with
+    /// delays at every yield point; judged additionally against each thread's statements run ALONE (non-interference)
+    DisjointAuto,
+    /// first split: a table that fills most of ONE page is scanned by 3 readers while a writer appends rows until the root
+    /// splits; delays between page fetch and latch widen the gap between a scan's descent and the start of its iteration
+    FirstSplit,
+    /// SnapshotRace with delays at the yield points after the snapshot and around commit
+    YieldSnapshot,
+    /// ScanVsSplit with delays between page fetch and latch, between leaves of a scan and between the tree operations of a statement
+    YieldTree,
+    /// a table with a UNIQUE index: 2 writers (distinct keys), 2 readers (point lookups by key and scans), delays between the
+    /// table-tree, index-tree and catalog-tree updates of each insert
+    YieldIndex,
+    /// several writers insert into / delete from the SAME table (no serial order is demanded: snapshot isolation admits write skew)
     SameTableWriters,
     /// as Deep with a cache of 12–20 pages, below the working set: frames are evicted while other threads pin pages
     SmallCache,
@@ -822,7 +918,158 @@ fn gen_scan_vs_split(rng: &mut Rng) -> Case {
     Case::new(line, &["nt", "shape:ScanVsSplit", "threads4", "deep_tree", "session", "auto_ins", "auto_sel", "scan_vs_write", "clean"])
 }
 
+fn with_yields(mut c: Case, yields: &[(&str, u64, u64)], shape: &str) -> Case {
+    let words: Vec<String> = yields.iter().map(|(t, p, m)| format!("yield={}:{}:{}", t, p, m)).collect();
+    c.line = c.line.replacen(" cache=", &format!(" {} cache=", words.join(" ")), 1);
+    for t in c.tags.iter_mut() {
+        if t.starts_with("shape:") {
+            *t = format!("shape:{}", shape);
+        }
+    }
+    for (t, _, _) in yields {
+        c.tags.push(format!("yield:{}", t));
+    }
+    c
+}
+
+fn gen_disjoint_auto(rng: &mut Rng) -> Case {
+    let n = rng.range(3, 6) as usize;
+    let mut g = Gen { rng };
+    let mut setup: Vec<String> = Vec::new();
+    let mut per_thread: Vec<Vec<String>> = Vec::new();
+    for i in 1..=n {
+        let name = format!("w{}", i);
+        setup.push(format!("tab={}{}", name, TAB3));
+        if i <= 2 && g.rng.chance(1, 2) {
+            setup.push(format!("fill={}:{}:{}", name, g.rng.range(40, 120), g.rng.range(40, 100)));
+        } else {
+            for k in 1..=g.rng.range(0, 3) {
+                setup.push(format!("row={}:{},{},'i'", name, k, 10 * k));
+            }
+        }
+        let mut ops = Vec::new();
+        let cnt = g.rng.range(5, 10) as usize;
+        g.writer_auto(i, &name, cnt, &mut ops);
+        per_thread.push(ops);
+    }
+    let ops = merge(g.rng, per_thread);
+    let line = format!(
+        "threads {} cache=10000 pool={} pace={} | {}",
+        setup.join(" "),
+        g.rng.range(2, 8),
+        g.rng.below(1_000_000_000),
+        ops.join(" ; ")
+    );
+    let mut c = Case::new(line, &["nt", "shape:DisjointAuto", "auto_ins", "auto_del", "auto_sel", "statement_level", "clean"]);
+    c.tags.push(format!("threads{}", n));
+    with_yields(
+        c,
+        &[("snapshot_taken", 200, 400), ("commit_logged", 200, 400), ("committed", 200, 400), ("page_fetched", 50, 200), ("tree_write", 200, 400)],
+        "DisjointAuto",
+    )
+}
+
+fn gen_first_split(rng: &mut Rng) -> Case {
+    let mut per_thread: Vec<Vec<String>> = Vec::new();
+    let pad = "y".repeat(40);
+    let mut k = 100;
+    let mut w = Vec::new();
+    for _ in 0..rng.range(5, 7) {
+        let rows: Vec<String> = (0..rng.range(3, 5))
+            .map(|_| {
+                k += 1;
+                format!("{} {} '{}'", k, rng.range(0, 99), pad)
+            })
+            .collect();
+        w.push(format!("t1 db ins a {}", rows.join(" , ")));
+    }
+    per_thread.push(w);
+    for t in 2..=4 {
+        per_thread.push((0..rng.range(8, 12)).map(|_| format!("t{} db sel a where k lt 1000", t)).collect());
+    }
+    let ops = merge(rng, per_thread);
+    let line = format!(
+        "threads tab=a{} fill=a:{}:{} cache=10000 pool=6 pace={} | {}",
+        TAB3,
+        rng.range(14, 24),
+        rng.range(60, 100),
+        rng.below(1_000_000_000),
+        ops.join(" ; ")
+    );
+    let c = Case::new(line, &["nt", "shape:FirstSplit", "threads4", "auto_ins", "auto_sel", "scan_vs_write", "clean"]);
+    with_yields(c, &[("page_fetched", 300, 400)], "FirstSplit")
+}
+
+fn gen_yield_index(rng: &mut Rng) -> Case {
+    let mut per_thread: Vec<Vec<String>> = Vec::new();
+    let n_init = rng.range(3, 8);
+    for t in 1..=2usize {
+        let mut l = Vec::new();
+        let mut keys: Vec<i64> = Vec::new();
+        let mut next = 1;
+        let session = rng.chance(1, 2);
+        for _ in 0..rng.range(3, 5) {
+            if session {
+                l.push(format!("t{} begin", t));
+            }
+            for _ in 0..rng.range(1, 3) {
+                if keys.is_empty() || rng.chance(3, 4) {
+                    let k = 100 * t as i64 + next;
+                    next += 1;
+                    keys.push(k);
+                    l.push(format!("t{} {}ins u {} {} 'w'", t, if session { "" } else { "db " }, k, rng.range(0, 99)));
+                } else {
+                    let k = keys.remove(rng.below(keys.len() as u64) as usize);
+                    l.push(format!("t{} {}del u where k eq {}", t, if session { "" } else { "db " }, k));
+                }
+            }
+            if session {
+                l.push(format!("t{} commit", t));
+            }
+        }
+        per_thread.push(l);
+    }
+    for t in 3..=4usize {
+        let mut l = Vec::new();
+        for _ in 0..rng.range(6, 10) {
+            if rng.chance(1, 2) {
+                l.push(format!("t{} db sel u where k eq {}", t, rng.range(1, n_init)));
+            } else if rng.chance(1, 2) {
+                l.push(format!("t{} db sel u where k eq {}", t, 100 * rng.range(1, 2) + rng.range(1, 4)));
+            } else {
+                l.push(format!("t{} db sel u", t));
+            }
+        }
+        per_thread.push(l);
+    }
+    let ops = merge(rng, per_thread);
+    let rows: Vec<String> = (1..=n_init).map(|k| format!("row=u:{},{},'i'", k, 10 * k)).collect();
+    let line = format!(
+        "threads tab=u(k:big*,v:int,p:text) {} cache=10000 pool={} pace={} | {}",
+        rows.join(" "),
+        rng.range(3, 8),
+        rng.below(1_000_000_000),
+        ops.join(" ; ")
+    );
+    let c = Case::new(line, &["nt", "shape:YieldIndex", "threads4", "unique_index", "auto_ins", "auto_sel", "scan_vs_write", "clean"]);
+    with_yields(c, &[("tree_write", 500, 800), ("page_fetched", 100, 200)], "YieldIndex")
+}
+
 fn gen_case(rng: &mut Rng, shape: Shape, small_cache: bool) -> Case {
+    match shape {
+        Shape::YieldSnapshot => {
+            let c = gen_snapshot_race(rng);
+            return with_yields(c, &[("snapshot_taken", 400, 1500), ("commit_logged", 300, 800), ("committed", 300, 800)], "YieldSnapshot");
+        }
+        Shape::YieldTree => {
+            let c = gen_scan_vs_split(rng);
+            return with_yields(c, &[("page_fetched", 100, 200), ("leaf_released", 400, 400), ("tree_write", 300, 500)], "YieldTree");
+        }
+        Shape::YieldIndex => return gen_yield_index(rng),
+        Shape::FirstSplit => return gen_first_split(rng),
+        Shape::DisjointAuto => return gen_disjoint_auto(rng),
+        _ => {}
+    }
     if shape == Shape::SnapshotRace {
         return gen_snapshot_race(rng);
     }
@@ -837,7 +1084,7 @@ fn gen_case(rng: &mut Rng, shape: Shape, small_cache: bool) -> Case {
         Shape::Deep => (g.rng.range(2, 3) as usize, g.rng.range(1, 2) as usize),
         Shape::SameTableReaders => (g.rng.range(1, 3) as usize, g.rng.range(1, 3) as usize),
         Shape::SameTableWriters => (g.rng.range(2, 4) as usize, g.rng.range(0, 1) as usize),
-        Shape::SnapshotRace | Shape::ScanVsSplit => unreachable!(),
+        Shape::SnapshotRace | Shape::ScanVsSplit | Shape::YieldSnapshot | Shape::YieldTree | Shape::YieldIndex | Shape::FirstSplit | Shape::DisjointAuto => unreachable!(),
         Shape::SmallCache => (g.rng.range(2, 3) as usize, g.rng.range(1, 2) as usize),
         Shape::FlushConcurrent | Shape::SubQ => (g.rng.range(2, 3) as usize, 1usize),
     };
@@ -957,7 +1204,10 @@ fn gen_case(rng: &mut Rng, shape: Shape, small_cache: bool) -> Case {
             tags.push("scan_vs_write".into());
             tags.push("clean".into());
         }
-        Shape::SameTableWriters => tags.push("same_table_writers".into()),
+        Shape::SameTableWriters => {
+            tags.push("same_table_writers".into());
+            tags.push("clean".into());
+        }
         Shape::SmallCache => {
             tags.push("small_cache".into());
             tags.push("clean".into());
@@ -982,9 +1232,15 @@ impl Engine for ThreadsEngine {
             Shape::SnapshotRace,
             Shape::ScanVsSplit,
             Shape::SmallCache,
+            Shape::SameTableWriters,
+            Shape::YieldSnapshot,
+            Shape::YieldTree,
+            Shape::YieldIndex,
+            Shape::FirstSplit,
+            Shape::DisjointAuto,
         ];
-        // cases of the three known-finding regions are spread among the clean ones (a hang costs its supervisor slot 10 s)
-        let regions = [Shape::SameTableWriters, Shape::FlushConcurrent, Shape::SubQ, Shape::SameTableWriters];
+        // cases of the two known-finding regions are spread among the clean ones (a hang costs its supervisor slot 10 s)
+        let regions = [Shape::FlushConcurrent, Shape::SubQ];
         let rounds = if quick { 40 } else { 600 };
         for r in 0..rounds {
             for s in clean {
